@@ -10,7 +10,9 @@ driver calls the helpers on EVERY state of the published fields:
 Oracle (what the Rust types do): a drop function is called exactly once, with the instance, iff both it and the instance
 are present - a box / arc without a drop function (borrowed or static payload, `CBox(T *instance)` of the C++ header, `None` in
 Rust) is released without any call and without touching memory; clone calls clone_fn once and copies both function
-pointers.  gcc and clang, -O0 and -O2.
+pointers.  The slice constructors STR / REF_SLICE are applied to a literal, to `const char *` values of several
+lengths, to a partially filled `char[256]` and to byte arrays: the slice has the C string's / the given length and the argument's
+address.  gcc and clang, -O0 and -O2.
 """
 import json
 import os
@@ -40,7 +42,9 @@ static const void *g_last;
 static int g_payload = 7;
 static void my_box_drop(void *p) { g_drops++; g_last = p; }
 static void my_arc_drop(const void *p) { g_drops++; g_last = p; }
-static const void *my_arc_clone(const void *p) { g_clones++; g_last = p; return p; }
+static int g_other = 8;
+/* a clone function may hand out another instance pointer for the new handle */
+static const void *my_arc_clone(const void *p) { g_clones++; g_last = p; return &g_other; }
 
 int main(void) {
     int i, d, c;
@@ -75,9 +79,35 @@ int main(void) {
             g_drops = 0; g_clones = 0;
             k = ctx_arc_clone(&a);
             {
-                int ok = g_clones == 1 && g_drops == 0 && k.instance == a.instance && k.clone_fn == a.clone_fn && k.drop_fn == a.drop_fn;
+                int ok = g_clones == 1 && g_drops == 0 && g_last == a.instance && k.instance == (const void *)&g_other && k.clone_fn == a.clone_fn && k.drop_fn == a.drop_fn;
                 printf("CASE arc_clone instance=%d drop_fn=%d clone_fn=%d %s calls=%d\n", i, d, c, ok ? "ok" : "bad", g_clones);
             }
+        }
+    }
+    {
+        /* slice constructors: STR takes the C string's length, whatever the static type of its argument is */
+        const char *lit_ptr = "a string of twenty-seven ch";
+        const char *one = "x";
+        const char *empty = "";
+        char key[256];
+        unsigned char bytes[5] = {1, 2, 3, 4, 5};
+        struct CSliceRef_u8 r;
+        size_t k;
+        memset(key, 'Z', sizeof key);
+        strcpy(key, "abcdef");
+        r = STR("literal");
+        printf("CASE str literal x x %s len=%zu\n", (r.len == 7 && memcmp(r.data, "literal", 7) == 0) ? "ok" : "bad", (size_t)r.len);
+        r = STR(lit_ptr);
+        printf("CASE str pointer27 x x %s len=%zu\n", (r.len == 27 && (const char *)r.data == lit_ptr) ? "ok" : "bad", (size_t)r.len);
+        r = STR(one);
+        printf("CASE str pointer1 x x %s len=%zu\n", (r.len == 1 && (const char *)r.data == one) ? "ok" : "bad", (size_t)r.len);
+        r = STR(empty);
+        printf("CASE str pointer0 x x %s len=%zu\n", (r.len == 0) ? "ok" : "bad", (size_t)r.len);
+        r = STR(key);
+        printf("CASE str buffer256 x x %s len=%zu\n", (r.len == 6 && (const char *)r.data == key) ? "ok" : "bad", (size_t)r.len);
+        for (k = 0; k <= 5; k++) {
+            r = REF_SLICE(u8, bytes, k);
+            printf("CASE ref_slice len%zu x x %s len=%zu\n", k, (r.len == k && r.data == bytes) ? "ok" : "bad", (size_t)r.len);
         }
     }
     printf("DONE\n");
@@ -149,7 +179,8 @@ def run(prop, tier, replay, Ctx):
     sec = "c_header_release_helpers"
     rep.rule(sec, "cont_box_drop / ctx_arc_drop / ctx_arc_clone of the processed C header on every state of the published fields (instance x drop_fn, "
                   "instance x clone_fn x drop_fn; NULL or set): a drop function is called exactly once with the instance iff both are present, never "
-                  "otherwise and never through a NULL pointer; clone calls clone_fn once and copies the function pointers; gcc and clang, -O0 and -O2")
+                  "otherwise and never through a NULL pointer; clone calls clone_fn once and copies the function pointers; STR / REF_SLICE on a literal, on const char * values, on a partially "
+                  "filled char[256] and on byte arrays give the C string's / the given length; gcc and clang, -O0 and -O2")
     r = run_once(exe, stubdir, workroot)
     if "machinery" in r:
         raise Ctx.Machinery(r["machinery"])
